@@ -63,6 +63,8 @@ CONTEXTS = [
     # a modifier whose literal operand is the last thing in the program / in its branch
     ("v", ""), ("⁽", ""), ("ß", ""), ("&", ""), ("~", ""), ("ƒ", ""), ("₌+", ""), ("₍+", ""), ("≬++", ""), ("‡+", ""), ("5 ß", ""),
     ("[1|ß", "]"), ("λv", ";"), ("⟨⁽", "⟩"), ("(₌+", ")"), ("{1|~", "}"), ("[ß", "|2]"),
+    # the literal is followed at once by characters that only mean something together (digraphs, runs of letters, a number)
+    ("", "k[1|2]"), ("(", "vH)"), ("[1|", "xX]"), ("λ", "ab;"), ("", "dd"), ("", "∆a1"), ("⟨", "øA|2⟩"), ("", "Þa;"), ("[", "k;|2]"), ("", "12.5"), ("", "#c\n1"),
     ("[[", "]1]"), ("(λ", ";)"), ("⟨[1|", "]|2⟩"), ("{[", "|X]}"), ("λƛ", ";;1"), ("[(", ")|{1}]"),
 ]
 
